@@ -27,6 +27,7 @@ static const struct target alltargs[] = {
 			.u.structunion.tag = "va_list",
 		},
 		.typewchar = &typeuint,
+		.bitfieldalign = 1,
 	},
 	{
 		.name = "riscv64",
